@@ -244,7 +244,14 @@ def crate_items():
                 for m in re.finditer(r"\binclude(?:_str|_bytes)?!\s*\(([^)]*)\)", txt):
                     includes.append("%s: %s" % (rel, re.sub(r"\s+", "", m.group(1))))
     dig = lambda l: hashlib.sha1("\n".join(sorted(l)).encode()).hexdigest()[:16]
-    return {"source files": dig(files), "mod declarations": dig(mods), "impl headers": dig(impls),
+    # files that change how rustc is invoked for anyone who builds the crate in place
+    cfgs = []
+    for rel in (".cargo/config.toml", ".cargo/config", "rust-toolchain", "rust-toolchain.toml", "build.rs",
+                "fpdec-core/.cargo/config.toml", "fpdec-macros/.cargo/config.toml", "clippy.toml", "rustfmt.toml"):
+        pth = os.path.join(REPO, rel)
+        if os.path.exists(pth) and rel not in ("clippy.toml", "rustfmt.toml"):
+            cfgs.append("%s:%s" % (rel, hashlib.sha1(open(pth, "rb").read()).hexdigest()[:16]))
+    return {"build configuration files": dig(cfgs), "source files": dig(files), "mod declarations": dig(mods), "impl headers": dig(impls),
             "macro_rules names": dig(macros), "include! uses": dig(includes)}
 
 
